@@ -307,7 +307,8 @@ def replay(check_id, h, workdir):
     shutil.copytree(os.path.join(VERIF, "harness"), hdir)
     modfile = os.path.join(hdir, os.path.basename(h["original_file"]))
     with open(modfile, "a") as f:
-        f.write("\n// ---- counterexample generated by Kani concrete playback ----\n" + test_src + "\n")
+        f.write("\n// ---- counterexample generated by Kani concrete playback ----\n"
+                "mod kani_replay_case {\n    #[allow(unused_imports)]\n    use crate::%s;\n%s\n}\n" % (h["pretty_name"], test_src))
     env["MRECORDLOG_VERIF_HARNESS_DIR"] = hdir
     tname = re.search(r"fn (kani_concrete_playback_\w+)", test_src).group(1)
     reproduced = False
